@@ -10,7 +10,7 @@ import (
 func init() {
 	register(stream{
 		name: "immut",
-		rule: "invocations (constructed, and decoded from sealed bytes) whose argument keys were inserted in EVERY order of ≤ 4 (5 thorough) keys and whose metadata keys in 3 orders, plus the root delegation they rely on: before and after each read-only operation (Arguments().ToIPLD, Arguments().String, Meta().String, Iter on both, ExecutionAllowed, ExecutionAllowedWithArgsHook observed from inside the loader, ExecutionAllowed with a loader lacking the proofs, ToSealed/ToDagJson/String of the invocation and of both delegations of its chain; every ordered pair of these on one fresh token; cells written into the spare capacity of the shared leaf delegation's policy slice) the key order observable through Iter() is compared with the model's post-state, and the operation's own output order with the model's; every operation is then run from 8 goroutines on the SAME tokens and must return what it returns alone. Added later: key pools of different lengths (sorted as strings ≠ sorted as DAG-CBOR keys); hooks whose result violates the policy and hooks that hand back the clone untouched, in every ordered pair with the other operations; 48-byte metadata values, every VALUE (not only the key order) compared after each operation and after the concurrent phase. One shared root delegation (constructed and decoded) whose policy has slice selectors with relative/open bounds, negative indexes, iterators and like patterns decides nine invocations with list arguments of different lengths in a row: each verdict must be the one a fresh delegation gives, and the delegation must print and seal as before. Arguments assembled by hand that LIST a key without a value (front, middle, end, twice): every read-only operation — whatever it makes of them — leaves the listed keys, their order and which of them have values as they were. Non-trivial = the insertion order is not already sorted. Distinct = distinct protocol lines.",
+		rule: "invocations (constructed, and decoded from sealed bytes) whose argument keys were inserted in EVERY order of ≤ 4 (5 thorough) keys and whose metadata keys in 3 orders, plus the root delegation they rely on: before and after each read-only operation (Arguments().ToIPLD, Arguments().String, Meta().String, Iter on both, ExecutionAllowed, ExecutionAllowedWithArgsHook observed from inside the loader, ExecutionAllowed with a loader lacking the proofs, ToSealed/ToDagJson/String of the invocation and of both delegations of its chain; every ordered pair of these on one fresh token; cells written into the spare capacity of the shared leaf delegation's policy slice) the key order observable through Iter() is compared with the model's post-state, and the operation's own output order with the model's; every operation is then run from 8 goroutines on the SAME tokens and must return what it returns alone. Added later: key pools of different lengths (sorted as strings ≠ sorted as DAG-CBOR keys); hooks whose result violates the policy and hooks that hand back the clone untouched, in every ordered pair with the other operations; 48-byte metadata values, every VALUE (not only the key order) compared after each operation and after the concurrent phase. One shared root delegation (constructed and decoded) whose policy has slice selectors with relative/open bounds, negative indexes, iterators and like patterns decides nine invocations with list arguments of different lengths in a row: each verdict must be the one a fresh delegation gives, and the delegation must print and seal as before. Arguments assembled by hand that LIST a key without a value (front, middle, end, twice): every read-only operation — whatever it makes of them — leaves the listed keys, their order and which of them have values as they were. Sealing with a key that is not the issuer's is refused before, between and after sealings with the right key, by every sealing entry point. Non-trivial = the insertion order is not already sorted. Distinct = distinct protocol lines.",
 		run:  runImmutStream,
 		eval: evalImmut,
 		cmp: func(line, g, m string) string {
@@ -97,6 +97,8 @@ func evalImmut(line string) (out string, rd string) {
 		return immutwork.SharedDelegationHistory(), rd
 	case "go.imm.ghost":
 		return immutwork.GhostKeys(), rd
+	case "go.imm.wrongkey":
+		return immutwork.WrongKeyHistory(), rd
 	case "go.imm.concurrent":
 		decoded := f[3] == "decoded"
 		fx, err := immutwork.New(unhxList(f[1]), unhxList(f[2]), decoded)
@@ -189,6 +191,7 @@ func runImmutStream(c *ctx) error {
 	c.emit("go.imm.concurrent "+hxList([]string{"a", "b", "c"})+" "+hxList([]string{"x", "y"})+" decoded", "immut.concurrent", true, "concurrent")
 	c.emit("go.imm.shared 0", "immut.shared-delegation", true, "shared-delegation")
 	c.emit("go.imm.ghost 0", "immut.valueless-key", true, "valueless-key")
+	c.emit("go.imm.wrongkey 0", "immut.wrong-key-history", true, "wrong-key-history")
 	// insertion orders that are sorted as strings but not by length, and the reverse (a shortcut for "already sorted"
 	// keys must not hand the token's own slice to a second sort)
 	for _, p := range [][]string{{"headers", "uri"}, {"a", "aa", "b"}, {"aa", "b"}, {"b", "aa"}, {"uri", "headers"}, {"a", "b", "aa"}, {"body", "headers", "method", "uri"}} {
